@@ -440,9 +440,9 @@ class MemOrchestrator(BaseOrchestrator):
         :param invocation_id: The invocation to get the lock for.
         :return: A threading Lock for the given invocation.
         """
-        if invocation_id not in self.locks:
-            self.locks[invocation_id] = threading.Lock()
-        return self.locks[invocation_id]
+        # setdefault is a single atomic dict operation: a check-then-insert would let two
+        # threads create two different locks for the same invocation.
+        return self.locks.setdefault(invocation_id, threading.Lock())
 
     def _atomic_status_transition(
         self,
